@@ -22,7 +22,7 @@ from . import observe as ob
 
 IDS = ["M", "K", "N", "J"]
 
-MUTATORS = ("ref", "hw", "posref", "append", "extend", "setitem", "fiadd", "fimul", "filshift",
+MUTATORS = ("ref", "hw", "posref", "append", "extend", "setitem", "iol", "fiadd", "fimul", "filshift",
             "updc", "updp", "updbelow", "clear", "setroot", "reroot")
 C03_FAMILY = ("ref", "hw", "posref", "get", "getpos")
 
@@ -66,15 +66,23 @@ def enc_point(p):
     return [ob.enc_coord(c) if not isinstance(c, tuple) else list(c) for c in p]
 
 
-def build_fiber(spec, shape, level=0, default=0):
+class SubInt(int):
+    """a value whose type merely derives from a built-in one (as numpy scalars, IntEnum members, named tuples do)"""
+
+
+def subtyped(v):
+    return SubInt(v) if type(v) is int else v
+
+
+def build_fiber(spec, shape, level=0, default=0, wrap=None):
     """spec: [[coord, leafvalue | subspec], ...]"""
     coords = [dec_coord(c) for c, _ in spec]
     payloads = []
     for _, p in spec:
         if isinstance(p, list):
-            payloads.append(build_fiber(p, shape, level + 1, default))
+            payloads.append(build_fiber(p, shape, level + 1, default, wrap))
         else:
-            payloads.append(p)
+            payloads.append(wrap(p) if wrap else p)
     sh = shape[level] if level < len(shape) else None
     kw = {}
     if sh is not None:
@@ -122,6 +130,8 @@ class TreeSim(WorldBase):
             cfg["leaf_default"] = rng.choice([5, -1, 0.5, 2.5])
         if prop == "C05" and rng.random() < 0.2:
             cfg["leaf_default"] = rng.choice([5, -1, 2.5])
+        if prop in ("C01", "C03") and rng.random() < 0.2:
+            cfg["subtyped"] = True      # raw values handed to constructors / append / position assignment are of a derived type
         # swarm: op weights with dropout
         w = dict(BASE_WEIGHTS[prop])
         focus = FOCUS[prop]
@@ -409,7 +419,7 @@ class TreeSim(WorldBase):
         elif route == "unc":
             t = Tensor.fromUncompressed(ids, a["nest"], default=default)
         elif route == "fib":
-            f = build_fiber(a["spec"], shape, default=default)
+            f = build_fiber(a["spec"], shape, default=default, wrap=subtyped if self.cfg.get("subtyped") else None)
             t = Tensor.fromFiber(ids, f, shape=shape, default=default)
             t.setMutable(True)
         elif route == "rand":
@@ -797,7 +807,7 @@ class TreeSim(WorldBase):
         sl, f, level, leaf = self._mut(a, targets, need_leaf=True)
         c = dec_coord(a["coord"])
         try:
-            f.append(c, a["v"])
+            f.append(c, subtyped(a["v"]) if self.cfg.get("subtyped") else a["v"])
         except AssertionError as e:
             if "monotonically" in str(e):
                 self.fault("rejected:append")
@@ -806,6 +816,43 @@ class TreeSim(WorldBase):
         except Exception as e:
             return {"status": f"exc:{type(e).__name__}"}
         return {}
+
+    def op_iol(self, a, targets):
+        """the deprecated (but public) insert-or-look-up: with a value at a leaf fiber, without one anywhere"""
+        sl, f, level, leaf = self._mut(a, targets)
+        c = dec_coord(a["coord"])
+        if any(type(x) is not type(c) for x in f.coords):
+            raise Skip("coordinate kind")
+        try:
+            if leaf and "v" in a:
+                r = f.insertOrLookup(c, a["v"])
+            else:
+                r = f.insertOrLookup(c)
+        except Exception as e:
+            return {"status": f"exc:{type(e).__name__}"}
+        self.probe("insert_or_lookup:" + ("existing" if a.get("_") else "any"))
+        return {}
+
+    def gen_iol(self, g):
+        s = self.pick_slot(g)
+        if s is None:
+            return None
+        sl = self.slots[s]
+        k = g.randrange(sl.depth)
+        pre = self.existing_prefix(g, sl, k)
+        if pre is None:
+            return None
+        f = ob.find_fiber(sl.root, pre)
+        S = sl.shape[k]
+        if f is None or not isinstance(S, int):
+            return None
+        c = self.rand_coord(g, S, f, 0.4)
+        if g.random() < 0.3:
+            c = (max(f.coords) if f.coords else -1) + 1        # beyond the last stored coordinate
+        a = {"slot": s, "prefix": enc_point(pre), "coord": c}
+        if k == sl.depth - 1 and g.random() < 0.5:
+            a["v"] = self.nextval()
+        return ["op", "iol", a]
 
     def op_extend(self, a, targets):
         sl, f, level, leaf = self._mut(a, targets, need_leaf=True)
@@ -830,6 +877,8 @@ class TreeSim(WorldBase):
             v = None          # interior: coordinate-only update keeps the tree type-correct
             if c is None:
                 raise Skip("nothing to do")
+        if self.cfg.get("subtyped"):
+            v = subtyped(v)
         if c is not None:
             c = dec_coord(c)
             val = CoordPayload(c, v)
@@ -1342,6 +1391,34 @@ class TreeSim(WorldBase):
         # the body
         act = action.get("act", "leave")
         res = {"judged": True, "c": ob.enc_coord(c), "act": act}
+        if info["interior"] and act == "rowacc" and isinstance(zr, Fiber) and isinstance(av, Fiber) \
+                and len(point) == zsl.depth - 1 and len(apoint) == asl.depth - 1 and self.prop == "C05" \
+                and all(isinstance(x, int) for x in list(zr.coords) + list(av.coords)) and zsl.default == 0 \
+                and asl.default == 0 and av.getOwner() is not None and av.getOwner().getFormat() == "C":
+            # the body accumulates the whole offered row: z_k += a_k (fiber += fiber)
+            add = {cc: Payload.get(pp) for cc, pp in zip(av.coords, av.payloads) if Payload.get(pp) != 0}
+            try:
+                zr += av
+            except Exception as e:
+                return self.unexpected("C05", "populate", e)
+            for cc, v in add.items():
+                k = point + (cc,)
+                nv = zsl.model.get(k, 0) + v
+                if nv != 0:
+                    zsl.model[k] = nv
+                else:
+                    zsl.model.pop(k, None)
+            info["written"].add(c)
+            info["rowacc"] = True
+            self.probe("populate_row_accumulated")
+            # "a is never modified": nothing of the source row may have become part of z
+            mine = {id(pp) for pp in zr.payloads}
+            if any(id(pp) in mine for pp in av.payloads):
+                self.V("C05", "C05.source-unchanged", "populate",
+                       f"after z_k += a_k at {point} the destination row holds the source row's own payload objects: "
+                       f"the next update of z changes a")
+            res["act"] = "rowacc"
+            return res
         if info["interior"]:
             res["act"] = "interior"
             if isinstance(zr, Fiber) and len(self.ihandles) < 8:
@@ -1789,6 +1866,9 @@ class TreeSim(WorldBase):
                     a["depth"], a["shape"] = src.depth - k, list(src.shape[k:])
         if self.prop == "C05" and g.random() < 0.25 and a["route"] in ("fib", "unc", "empty"):
             a["fmtU"] = [i for i in range(a["depth"]) if g.random() < 0.5]
+        if self.prop in ("C01", "C02", "C03") and g.random() < 0.12 and a["route"] in ("fib", "unc", "empty"):
+            # ranks declared uncompressed although the fibers are stored sparsely
+            a["fmtU"] = [i for i in range(a["depth"]) if g.random() < 0.6]
         return a
 
     def gen_new_ev(self, g):
@@ -2224,6 +2304,8 @@ class TreeSim(WorldBase):
         if t.kind == "populate":
             if t.info.get("interior"):
                 # the decision to descend is its own event (a start with parent=...)
+                if g.random() < 0.15:
+                    return {"act": "rowacc"}       # z_k += a_k: accumulate the whole offered row
                 return {"act": "interior"}
             r = g.random()
             if r < 0.3:
@@ -2301,7 +2383,7 @@ def _weighted(g, w):
 
 ob._k = lambda c: repr(c)
 
-ALLMUT = {"ref": 6, "hw": 3, "posref": 2, "append": 2, "extend": 1, "setitem": 3, "fiadd": 1, "fimul": 1,
+ALLMUT = {"ref": 6, "hw": 3, "posref": 2, "append": 2, "extend": 1, "setitem": 3, "iol": 0.8, "fiadd": 1, "fimul": 1,
           "filshift": 1.5, "updc": 1.5, "updp": 1.5, "updbelow": 1, "clear": 1, "reroot": 0.7, "orphan": 1.2, "populate": 3, "descend": 6, "ishaperef": 2, "coishaperef": 1,
           "new_op": 0.5}
 BASE_WEIGHTS = {
@@ -2310,7 +2392,7 @@ BASE_WEIGHTS = {
     "C03": {"r0": 2, "ref": 8, "hw": 5, "posref": 3, "get": 8, "getpos": 3, "append": 0.5, "setitem": 0.7, "clear": 0.3,
             "populate": 0.7, "descend": 2, "updp": 0.3, "fimul": 0.3, "filshift": 0.3, "new_op": 0.3},
     "C05": {"vr": 1.0, "populate": 8, "descend": 10, "ref": 3, "hw": 1, "get": 3, "setitem": 1, "clear": 0.3, "filshift": 0.5,
-            "fimul": 0.5, "rotrav": 0.5, "new_op": 0.7, "regrow": 0.6},
+            "fimul": 0.5, "fiadd": 0.7, "rotrav": 0.5, "new_op": 0.7, "regrow": 0.6},
     "C10": dict(ALLMUT, get=2, getpos=1, rotrav=2, vr=10, ro=10, render=0.35, r0=0.5),
 }
 FOCUS = {
